@@ -2,8 +2,8 @@
 # tools/import_seeded.sh <ID> <n> <checks...> : evaluate /tmp/mut/<ID>/out/patch_<n>.diff (+demo) and store it under /verif/seeded/<ID>_<n>/
 set -u
 id=$1; n=$2; shift 2
-src=/tmp/mut/$id/out
-dst=/verif/seeded/${id}_$n
+src=${MUT_ROOT:-/tmp/mut}/$id/out
+dst=/verif/seeded/${id}_$((n + ${MUT_OFFSET:-0}))
 mkdir -p "$dst"
 cp "$src/patch_$n.diff" "$dst/patch.diff"
 [ -f "$src/demo_$n.py" ] && cp "$src/demo_$n.py" "$dst/demo.py"
